@@ -9,8 +9,14 @@ Bit8u nondet_u8(void);
 void h_OPN2_Clock(void) { ym3438_t *c; Bit16s *b; OPN2_Clock(c, b); REACH(1, "the call returns (precondition satisfiable)"); }
 void h_OPN2_Write(void) { ym3438_t *c; OPN2_Write(c, nondet_u32(), nondet_u8()); REACH(1, "the call returns (precondition satisfiable)"); }
 void h_OPN2_WritePan(void) { ym3438_t *c; OPN2_WritePan(c, nondet_u32(), nondet_u8()); REACH(1, "the call returns (precondition satisfiable)"); }
-void h_OPN2_WriteBuffered(void) { ym3438_t *c; OPN2_WriteBuffered(c, nondet_u32(), nondet_u8()); REACH(1, "the call returns (precondition satisfiable)"); if(0) { OPN2_Clock(c, 0); OPN2_Write(c, 0, 0); } }
-void h_OPN2_Generate(void) { ym3438_t *c; Bit16s *b; OPN2_Generate(c, b); REACH(1, "the call returns (precondition satisfiable)"); if(0) { OPN2_Clock(c, 0); OPN2_Write(c, 0, 0); } }
+#ifdef NUKED_TYPED_ENV
+ym3438_t g_nuked_chip;
+#define ENVCHIP = &g_nuked_chip
+#else
+#define ENVCHIP
+#endif
+void h_OPN2_WriteBuffered(void) { ym3438_t *c ENVCHIP; OPN2_WriteBuffered(c, nondet_u32(), nondet_u8()); REACH(1, "the call returns (precondition satisfiable)"); if(0) { OPN2_Clock(c, 0); OPN2_Write(c, 0, 0); } }
+void h_OPN2_Generate(void) { ym3438_t *c ENVCHIP; Bit16s *b; OPN2_Generate(c, b); REACH(1, "the call returns (precondition satisfiable)"); if(0) { OPN2_Clock(c, 0); OPN2_Write(c, 0, 0); } }
 void h_OPN2_Reset(void) { ym3438_t *c; OPN2_Reset(c, nondet_u32(), nondet_u32()); REACH(1, "the call returns (precondition satisfiable)"); }
 void h_OPN2_SetMute(void) { ym3438_t *c; OPN2_SetMute(c, nondet_u32()); REACH(1, "the call returns (precondition satisfiable)"); }
 #ifdef NUKED_CHIPTYPE_PER_CHIP
